@@ -40,6 +40,9 @@ func runC12Cmd(c c12Cmd) error {
 	rs := make([]vegeta.Result, len(c.Lat))
 	for i, l := range c.Lat {
 		rs[i] = vegeta.Result{Seq: uint64(i), Code: 200, Timestamp: time.Unix(int64(i), 0), Latency: time.Duration(l)}
+		if i%3 != 0 { // failed requests with recurring error texts
+			rs[i].Code, rs[i].Error = 503, []string{"503 Service Unavailable", "EOF"}[i%2]
+		}
 	}
 	in, err := writeResults(dir, "in.gob", "gob", rs)
 	if err != nil {
